@@ -461,12 +461,16 @@ def progress_predicate(F, R):
                                 byfn = {}
                                 for (cb, it, c) in cons:
                                     byfn.setdefault(cb.path, []).append((cb, it, c))
+                                # the flag must not be a constant over all constructions of the struct (then it would say nothing);
+                                # one function may well build only the diverging (or only the regular) value
+                                consts = {P.is_constant(overall_presence(items, "diverging")) for items in byfn.values()}
+                                informative = (None in consts) or ({True, False} <= consts)
+                                okk = bool(byfn)
                                 for fnp, items in byfn.items():
                                     a = overall_presence(items, "diverging")
                                     d = overall_presence(items, "divergence_info")
                                     kk = "%s:%s:flag-vs-info" % (adt_path, fnp)
-                                    if P.equivalent(a, d) and P.is_constant(a) is None:
-                                        okk = True
+                                    if P.equivalent(a, d) and informative:
                                         R.ok("C16-R4", kk, "%s @%s" % (fnp, items[0][0].loc()), "%s.diverging == divergence_info.is_some() in every construction (%s)" % (adt_path, P.fshow(a)))
                                     else:
                                         okk = False
